@@ -173,9 +173,14 @@ def handler(payload):
     if payload.get("fast_poll", True):
         fast_poll()
     out = []
+    # the same directory path for every pipeline of this process (emptied in between), see rw_worker
+    import shutil
+    wd = os.path.join(os.getcwd(), "jobdir")
     for i, job in enumerate(payload["jobs"]):
-        with tempfile.TemporaryDirectory(prefix="pipe%d-" % i, dir=os.getcwd()) as wd:
-            out.append(run_job(job, wd))
+        shutil.rmtree(wd, ignore_errors=True)
+        os.mkdir(wd)
+        out.append(run_job(job, wd))
+    shutil.rmtree(wd, ignore_errors=True)
     return out
 
 
